@@ -171,6 +171,15 @@ def own_deco(fn):
 @own_deco
 def own_decorated(x=3):
     return x
+class _OwnRegistry:
+    def own_reg_method(self):
+        return 0
+    def profile(self, fn):          # last in the class body: a later `def` there would see THIS name
+        return fn
+own_registry = _OwnRegistry()
+@own_registry.profile
+def own_dotted_profile(x=4):
+    return x
 class OwnK:
     def own_m(self):
         return 1
@@ -214,6 +223,7 @@ import asyncio as _asyncio
 _acc.append(own_plain())
 _acc.append(own_outer())
 _acc.append(own_decorated())
+_acc.append((own_dotted_profile(), own_registry.own_reg_method()))
 _k = OwnK()
 _acc.append((_k.own_m(), OwnK.own_s(), OwnK.own_c(), _k.own_p, OwnK.OwnNested().own_nm()))
 _acc.append(_asyncio.run(own_co()))
@@ -222,6 +232,7 @@ _acc.append((own_in_if(), own_in_try(), own_in_for(), own_in_with()))
 '''
 # every function of OWN_DEFS whose `def` executes when the script runs
 OWN_FUNCS = ['own_plain', 'own_outer', 'own_inner', 'own_inner2', 'own_deco', 'own_wrapper', 'own_decorated',
+             'profile', 'own_reg_method', 'own_dotted_profile',
              'own_m', 'own_s', 'own_c', 'own_p', 'own_nm', 'own_co', 'own_gen', 'own_in_if', 'own_in_try',
              'own_in_for', 'own_in_with']
 
@@ -402,7 +413,10 @@ def finish_layout_case(rnd, case, base_abs):
 
 # ---------------------------------------------------------------------------------------
 # random program texts (tree-level tie; never executed)
-DECOS = ['@deco', '@profile', '@a.b', '@d(1)', '@staticmethod', '@functools.wraps(f)', '@other']
+DECOS = ['@deco', '@profile', '@a.b', '@d(1)', '@staticmethod', '@functools.wraps(f)', '@other',
+         # look-alikes of the profiler's own decorator: only a bare `@profile` counts as already profiled
+         '@cli.profile', '@line_profiler.profile', '@self.app.profile', '@registry.profile()', '@profile()',
+         '@profiler', '@x.profile_it']
 IMPORTS = [
     'import os', 'import os.path', 'import os.path as osp', 'import a, b.c as d, e',
     'import pkg.mod_a, pkg.mod_b', 'import pkg.mod_a as ma, pkg.mod_b as mb',
@@ -410,6 +424,8 @@ IMPORTS = [
     'from pkg.mod_a import f0, K0 as Q', 'from pkgx import mod_a', 'from pk import m',
     'from os import *', 'from pkg.mod_a import *', 'import os, os', 'import pkg.mod_a\nimport pkg.mod_a as again',
     'from pkg import sub', 'from pkg.sub import mod', 'import foo, foobar, foo_bar', 'from foo import bar',
+    'from pkg import mod_a, mod_b\nimport pkg.sub.mod as later', 'import pkg.mod_a, pkg.mod_b as mb2\nfrom pkg import sub as s2',
+    'from pkg import mod_a as m1, mod_b as m2, sub as m3\nimport foo.bar\nfrom pk import m',
     'from foobar import bar', 'import foo.bar, foo.barbaz',
 ]
 REL_IMPORTS = ['from . import sib', 'from .sib import thing as t', 'from .. import up', 'from ..up import x, y',
